@@ -15,6 +15,9 @@
 (*                (v | v/vt | v//vn | v/vt/vn)                             *)
 (*   t = "x"      anything a reader must skip (comment, mtllib, o, s)      *)
 (*   t = "bad"    a line the tokeniser could not read as any of the above  *)
+(*   t = "cut"    the text went on, far beyond what its content accounts   *)
+(*                for (several times the statements of the source): the    *)
+(*                tokeniser stopped logging; rejected as "oversize"        *)
 (* Scalars are opaque integers (lattice units or float32 bit patterns, see *)
 (* harness/objstl/num.go): the specification only ever compares them.      *)
 (*                                                                         *)
@@ -66,6 +69,7 @@ StmtWhy(m, st) ==
                  IF ws # {} THEN CHOOSE w \in ws : TRUE
                  ELSE IF SameSyntax(st.c) THEN "" ELSE "syntax"
       [] st.t = "x" -> ""
+      [] st.t = "cut" -> "oversize"
       [] OTHER -> "malformed"
 
 Resolve(m, c) ==
@@ -114,8 +118,9 @@ FacesPos(groups) == Flat([g \in DOMAIN groups |-> [t \in DOMAIN groups[g].tris |
                             [c \in 1..3 |-> groups[g].tris[t][c][1]]]])
 
 Count(seq, x) == Cardinality({i \in DOMAIN seq : seq[i] = x})
-\* faces of a that occur more often in a than in b
-Surplus(a, b) == {x \in Range(a) : Count(a, x) > Count(b, x)}
+\* faces of a that occur more often in a than in b (equal lists have none: the usual case, and
+\* linear instead of quadratic for the long lists of the size profiles)
+Surplus(a, b) == IF a = b THEN {} ELSE {x \in Range(a) : Count(a, x) > Count(b, x)}
 
 (***************************************************************************)
 (* Meshes as the harness projects them through public observers.           *)
